@@ -1103,6 +1103,13 @@ def audit(ctx, R, entries, config='default'):
                         why = 'callers: all %d reachable call sites are dominated by en_passant() being Some (is_some() / `if let Some`)' % n
             if why:
                 ctx.ok(R, '%s -- %s' % (desc, why), where(body, c['line']))
+            elif '::{closure#' in k and kind in ('unwrap', 'unwrap-result') and \
+                    any(isinstance(x, tuple) and x and x[0] == 'param' for x in walk(norm(c['argvals'][0]))):
+                # an unwrap inside a closure on something built from its captures / arguments: whether it can fail depends on
+                # when the adaptor calls the closure (`opt.map(|p| (p, other(sq).unwrap()))` runs only for Some), which this
+                # audit does not follow
+                ctx.inconclusive(R, '%s: unwrap inside a closure: the condition under which the closure is called is not tracked (%s)' % (
+                    k, opnd[:120]))
             else:
                 ctx.violation(R, '%s:%s:%s' % (k, kind, opnd[:120]),
                               'possible panic: %s on %s is not guarded' % (callee.rsplit('::', 1)[-1], opnd), where(body, c['line']))
